@@ -578,4 +578,77 @@ class ValueTextEngine(Engine):
     return {'obs': obs, 'fails': fails[:2], 'nontrivial': representable and '\n' in pf and isinstance(v, (list, tuple, dict)), 'tags': tags}
 
 
-ENGINES = [SerialEngine(), ValueTextEngine()]
+class DynStrEngine(Engine):
+  """'with or without dynamic registration': configs written against real module objects (the C19 universe: several
+  files, every import form, aliases, colliding bound names, references); config_str() is parsed into the cleared
+  configuration: the same objects get the same values, and serialising again yields the identical text.
+  Implementation only (header and selector spelling are modelled and proved in C19 / Serial)."""
+  name = 'config-str-dynamic'
+  model = False
+
+  def budget(self, tier):
+    return 150 if tier == 'quick' else 4000
+
+  def corpus(self):
+    from harness.props import c19
+    return [c for c in c19.DynEngine().corpus() if isinstance(c, list)]
+
+  def gen(self, rng, tier):
+    from harness.props import c19
+    g = c19.DynEngine()
+    while True:
+      case = g.gen(rng, tier)
+      if isinstance(case, list):
+        return case
+
+  def shrink(self, case):
+    for i in range(len(case)):
+      if len(case) > 1:
+        yield case[:i] + case[i + 1:]
+      for j in range(len(case[i])):
+        yield case[:i] + [case[i][:j] + case[i][j + 1:]] + case[i + 1:]
+
+  def impl(self, case):
+    from harness.props import c19
+    gin = C.fresh_gin()
+    cfg = gin.config
+    w = c19.World()
+    fails = []
+    try:
+      try:
+        for stmts in case:
+          gin.parse_config(c19.render(stmts))
+      except Exception as e:  # pylint: disable=broad-except
+        return {'obs': T('ParseError', type(e).__name__), 'fails': [], 'nontrivial': False, 'tags': ['parse-error']}
+
+      def store():
+        out = {}
+        for (s, q), d in cfg._CONFIG.items():  # pylint: disable=protected-access
+          for p, v in d.items():
+            if isinstance(v, cfg.ConfigurableReference):
+              v = ('ref', '/'.join(v.scopes), id(v.configurable.wrapped), bool(v.evaluate))
+            out[(s, id(cfg._REGISTRY[q].wrapped), p)] = v  # pylint: disable=protected-access
+        return out
+      first = store()
+      text = gin.config_str()
+      dyn = any(st[1] == '__gin__.dynamic_registration' for stmts in case for st in stmts if st[0] == 'import')
+      gin.clear_config()
+      try:
+        gin.parse_config(text)
+      except Exception as e:  # pylint: disable=broad-except
+        fails.append(('config-str-does-not-parse', '%s: %s; text %r' % (type(e).__name__, str(e)[:160], text)))
+      else:
+        second = store()
+        if second != first:
+          fails.append(('round-trip-lost-or-changed', 'store (scope, object, parameter) -> value before %r, after parsing config_str() %r; '
+                        'text %r' % (sorted(map(repr, first.items())), sorted(map(repr, second.items())), text)))
+        else:
+          text2 = gin.config_str()
+          if text2 != text:
+            fails.append(('not-idempotent', 'first %r second %r' % (text, text2)))
+      return {'obs': T('Done'), 'fails': fails[:2], 'nontrivial': dyn and len(first) >= 2, 'tags': ['dynamic' if dyn else 'static']}
+    finally:
+      w.close()
+
+
+ENGINES = [SerialEngine(), ValueTextEngine(), DynStrEngine()]
